@@ -15,6 +15,8 @@ type Link struct {
 	Op      string `json:"op"` // "@rx", "!@rx", "@pm", "@streq", "@contains", ...
 	Operand string `json:"operand"`
 	Trail   string `json:"trail,omitempty"` // bytes after `" \` on the SecRule line (blanks)
+	// Pre: full comment lines in front of this SecRule line (for chained links: comments inside the chain)
+	Pre []string `json:"pre,omitempty"`
 }
 
 type Rule struct {
@@ -69,6 +71,9 @@ func (f *RulesFile) Render() (string, map[string]Span) {
 		}
 		for k, l := range r.Links {
 			ind := strings.Repeat("    ", k)
+			for _, c := range l.Pre {
+				emit(c)
+			}
 			head := ind + "SecRule " + l.Vars + ` "` + l.Op + " "
 			start := sb.Len() + len(head)
 			spans[Key(r.ID, k)] = Span{Start: start, End: start + len(l.Operand), Line: line}
@@ -185,6 +190,15 @@ func GenRulesFile(t *rapid.T, o RulesOpt) *RulesFile {
 			if o.Trail && rapid.IntRange(0, 5).Draw(t, "trail") == 0 {
 				l.Trail = rapid.SampledFrom([]string{" ", "  ", "\t"}).Draw(t, "trailv")
 			}
+			if k > 0 && o.IDComments && rapid.IntRange(0, 5).Draw(t, "chaincmt") == 0 {
+				// comments inside a chain, some of them mentioning the directive or the action by name
+				l.Pre = rapid.SampledFrom([][]string{
+					{"    # The chained SecRule below restricts the match to shells"},
+					{"    #SecRule REQUEST_HEADERS \"@rx disabled\" \\", "    #    \"t:none,\\", "    #    chain\""},
+					{"# SecRule ARGS \"@rx old\" \\"},
+					{"    #", "    # end of chain? no: one more link"},
+				}).Draw(t, "chaincmtv")
+			}
 			r.Links = append(r.Links, l)
 		}
 		switch rapid.IntRange(0, 5).Draw(t, "cmt") {
@@ -202,7 +216,7 @@ func GenRulesFile(t *rapid.T, o RulesOpt) *RulesFile {
 				r.Comments = []string{"#SecRule ARGS \"@rx commented-out\" \\", "#    \"id:" + id + ",\\", "#    phase:2,\\", "#    t:none\""}
 			}
 		}
-		r.Msg = rapid.SampledFrom([]string{"", "Attack detected", "Rule " + id, `matched "@rx thing`}).Draw(t, "msg")
+		r.Msg = rapid.SampledFrom([]string{"", "Attack detected", "Rule " + id, `matched "@rx thing`, "Possible attack chain detected", "Supply chain attack", "chain", "SecRule bypass"}).Draw(t, "msg")
 		f.Rules = append(f.Rules, r)
 	}
 	return f
